@@ -1,3 +1,21 @@
 import FlatModel.Props.C01
+import FlatModel.Props.C04
+import FlatModel.Props.C05
+import FlatModel.Props.C06Bits
+import FlatModel.Props.C09
+import FlatModel.Props.C11
+import FlatModel.Props.Universe
+import FlatModel.Props.UniverseOps
 #print axioms FC.C02.frame_history
 #print axioms FC.C02.issued_valid
+#print axioms FC.C02.frame_reserve
+#print axioms FC.issued_reads
+#print axioms FC.C05.push_keeps_prefix
+#print axioms FC.C05.indexOptimized_spill_keeps_prefix
+#print axioms FC.C05.indexList_chonk_keeps_smol
+#print axioms FC.Huff.frame_bits
+#print axioms FC.C06.frame_coded
+#print axioms FC.C11.hit_or_miss
+#print axioms FC.Universe.C02_every_composition
+#print axioms FC.Universe.C02_issued_valid
+#print axioms FC.Universe.C02_reserve_every_composition
